@@ -199,15 +199,16 @@ Qed.
 Definition lf_static (f : lfile) := (l_hid f, l_seq f, l_ident f, l_fh_origin f, l_reg f, l_nofmt f).
 Definition skeeps (st st' : bstate) : Prop :=
   b_sets st' = b_sets st /\ b_phys st' = b_phys st /\ map lf_static (b_lfs st') = map lf_static (b_lfs st)
-  /\ forall i, keeps (item_at st i) (item_at st' i).
+  /\ (forall i, keeps (item_at st i) (item_at st' i))
+  /\ length (b_items st') = length (b_items st).
 
 Lemma skeeps_refl st : skeeps st st.
-Proof. repeat split; try reflexivity; apply keeps_refl. Qed.
+Proof. split; [reflexivity|]. split; [reflexivity|]. split; [reflexivity|]. split; [intros i; apply keeps_refl | reflexivity]. Qed.
 
 Lemma skeeps_trans a b c : skeeps a b -> skeeps b c -> skeeps a c.
 Proof.
-  intros (S1 & P1 & L1 & K1) (S2 & P2 & L2 & K2). split; [congruence|]. split; [congruence|]. split; [congruence|].
-  intros i. eapply keeps_trans; [apply K1 | apply K2].
+  intros (S1 & P1 & L1 & K1 & N1) (S2 & P2 & L2 & K2 & N2). split; [congruence|]. split; [congruence|]. split; [congruence|].
+  split; [|congruence]. intros i. eapply keeps_trans; [apply K1 | apply K2].
 Qed.
 
 Lemma item_at_set_item st k it' i :
@@ -220,7 +221,8 @@ Qed.
 
 Lemma set_item_skeeps st k it' : keeps (item_at st k) it' -> skeeps st (set_item st k it').
 Proof.
-  intros K. split; [reflexivity|]. split; [reflexivity|]. split; [reflexivity|]. intros i.
+  intros K. split; [reflexivity|]. split; [reflexivity|]. split; [reflexivity|].
+  split; [|unfold set_item; cbn [b_items]; apply length_upd]. intros i.
   rewrite item_at_set_item. destruct (Nat.eqb_spec i k) as [->|]; cbn [andb]; [|apply keeps_refl].
   destruct (Nat.ltb _ _); [exact K | apply keeps_refl].
 Qed.
@@ -233,7 +235,7 @@ Qed.
 
 Lemma set_lf_skeeps st l f f' : lf_at st l = Some f -> lf_static f' = lf_static f -> skeeps st (set_lf st l f').
 Proof.
-  intros Hl Hr. split; [reflexivity|]. split; [reflexivity|]. split; [|intros i; apply keeps_refl].
+  intros Hl Hr. split; [reflexivity|]. split; [reflexivity|]. split; [|split; [intros i; apply keeps_refl | reflexivity]].
   unfold set_lf. cbn [b_lfs]. apply upd_map_same. intros y Hy. unfold lf_at in Hl. rewrite Hl in Hy. inv Hy. exact Hr.
 Qed.
 
@@ -245,7 +247,7 @@ Proof.
 Qed.
 
 Lemma skeeps_ty st st' i : skeeps st st' -> i_ty (item_at st' i) = i_ty (item_at st i).
-Proof. intros (_ & _ & _ & K). apply K. Qed.
+Proof. intros (_ & _ & _ & K & _). apply K. Qed.
 
 (* the items a registry lists under a type have that type *)
 Lemma reg_items_ty st r ty i :
@@ -493,7 +495,7 @@ Proof.
   intros st st' i idx ty v v' u u'.
   assert (Hi : Inv st) by (apply reachable_inv_actions; split; [apply inv_shape_init | apply inv_struct_init]).
   assert (Hr : Inv_reg st) by (apply reachable_inv_reg_actions; [split; [apply inv_shape_init | apply inv_struct_init] | apply inv_reg_init]).
-  destruct (write_keeps hc st w Hi Hr) as (_ & _ & _ & K). destruct (K i) as [Et Kv]. destruct (Kv idx) as [V U].
+  destruct (write_keeps hc st w Hi Hr) as (_ & _ & _ & K & _). destruct (K i) as [Et Kv]. destruct (Kv idx) as [V U].
   split; [exact Et|]. split.
   - intros Hne. destruct V as [E|R]; [exfalso; apply Hne; exact E | exact R].
   - intros Hne. destruct U as [E|R]; [exfalso; apply Hne; exact E | exact R].
